@@ -8,7 +8,7 @@ use blsful::inner_types::Group;
 use blsful::*;
 use serde_json::json;
 
-pub const RULE: &str = "message lengths (as C11) x identifiers {empty, 1 byte, 32 bytes, 1 KiB} x 3 schemes x 2 groups x fresh keys. Honest: decrypt with sk.sign(scheme,id) == msg; with Signature::from_shares over 2-of-3 and 3-of-5 splits (Basic/PoP) == msg; decode(encode(ct)) opens; the REFERENCE opens the library's ciphertext. Negative: signature over another identifier, by another key, under each other scheme (same id), identity signature, the signature point re-labelled -> None. Tamper (designated short-message ciphertext per cell: EXHAUSTIVE, others sampled): every single-bit flip of u (decode-or-None), v, and of the authenticated prefix w[0 .. prefix+len) -> None; flips and extensions inside the zero padding w[prefix+len ..] and truncations of w at every length -> original message or None, never another message. Distinct by (suite,scheme,variant,ciphertext bytes); non-trivial = ciphertext decodes and the final r*P == U test decides.";
+pub const RULE: &str = "message lengths (as C11) x contents {random, all-zero; thorough: + all-0xff, counter} x identifiers {empty, 1 byte, 32 bytes, 1 KiB} x 3 schemes x 2 groups x fresh keys. Honest: decrypt with sk.sign(scheme,id) == msg; with Signature::from_shares over 2-of-3 and 3-of-5 splits (Basic/PoP) == msg; decode(encode(ct)) opens; the REFERENCE opens the library's ciphertext. Negative: signature over another identifier, by another key, under each other scheme (same id), identity signature, the signature point re-labelled -> None. Tamper (designated short-message ciphertext per cell: EXHAUSTIVE, others sampled): every single-bit flip of u (decode-or-None), v, and of the authenticated prefix w[0 .. prefix+len) -> None; flips and extensions inside the zero padding w[prefix+len ..] and truncations of w at every length -> original message or None, never another message. Distinct by (suite,scheme,variant,ciphertext bytes); non-trivial = ciphertext decodes and the final r*P == U test decides. History clusters (1 quick / 6 thorough per group): the ciphertext of every scheme and its copies (three labels, u+G, a bit of v) opened with the signature of every scheme over the identifier, a signature over another identifier and a foreign key's signature, asked in ordered pairs (a,b) as a,b,b,a; every answer must equal the answer the question has on its own.";
 
 pub fn run(ctx: &mut Ctx) {
     for_both!(run_suite, ctx);
@@ -44,13 +44,28 @@ fn run_suite<C: Suite>(ctx: &mut Ctx) {
         if scheme != Scheme::Aug {
             ctx.require(&format!("{n}/{sn}/honest-from-shares"));
         }
+        // contents: random, and all-zero (leading 0x00 bytes next to the length prefix, trailing
+        // 0x00 bytes next to the padding); thorough adds all-0xff and a counter
+        let contents: &[Content] = ctx.tier.pick(&[Content::Random, Content::Zero][..], &gen::CONTENTS[..]);
         for (li, len) in lengths(ctx.tier).into_iter().enumerate() {
-            g += 1;
-            if !ctx.mine(g) {
-                continue;
+            for &content in contents {
+                if len == 0 && !matches!(content, Content::Random) {
+                    continue;
+                }
+                g += 1;
+                if !ctx.mine(g) {
+                    continue;
+                }
+                let exhaustive = matches!(content, Content::Random) && (len == 5 || (ctx.tier == Tier::Thorough && (len == 0 || len == 30)));
+                one::<C>(ctx, g, scheme, len, li, exhaustive, content);
             }
-            let exhaustive = len == 5 || (ctx.tier == Tier::Thorough && (len == 0 || len == 30));
-            one::<C>(ctx, g, scheme, len, li, exhaustive);
+        }
+    }
+    ctx.require(&format!("{n}/history"));
+    for i in 0..ctx.tier.pick(1, 6) {
+        g += 1;
+        if ctx.mine(g) {
+            history_cluster::<C>(ctx, g, i);
         }
     }
     let s = "single-bit flips of u, v and w of the designated short-message ciphertext(s), and every truncation length of w".to_string();
@@ -59,12 +74,12 @@ fn run_suite<C: Suite>(ctx: &mut Ctx) {
     }
 }
 
-fn one<C: Suite>(ctx: &mut Ctx, g: u64, scheme: Scheme, len: usize, li: usize, exhaustive: bool) {
+fn one<C: Suite>(ctx: &mut Ctx, g: u64, scheme: Scheme, len: usize, li: usize, exhaustive: bool, content: Content) {
     let mut rng = ctx.rng(g);
     let n = C::NAME;
     let sn = scheme.name();
     let ls_ = lscheme(scheme);
-    let msg = gen::message(len, Content::Random, &mut rng);
+    let msg = gen::message(len, content, &mut rng);
     let id = gen::message([8usize, 0, 1, 32, 1024][li % 5], Content::Random, &mut rng);
     let k = gen::random_scalar(&mut rng);
     let sk = sk_from_rs::<C>(&k);
@@ -266,4 +281,62 @@ fn one<C: Suite>(ctx: &mut Ctx, g: u64, scheme: Scheme, len: usize, li: usize, e
     if exhaustive {
         ctx.count("exhaustive_tamper_ciphertexts", 1);
     }
+}
+
+/// One key, one foreign key, one message, two identifiers: the ciphertext of every scheme and its
+/// copies (each label, u+G, a bit of v) opened with the signature of every scheme over the
+/// identifier, a signature over another identifier and a foreign key's signature - asked in
+/// ordered pairs as a, b, b, a (all pairs among the questions about one ciphertext, sampled pairs
+/// across ciphertexts). Only (original copy, same scheme's signature over the identifier) opens.
+fn history_cluster<C: Suite>(ctx: &mut Ctx, g: u64, i: usize) {
+    use super::history::{family_pairs, q, sandwich_pairs, Q};
+    let mut rng = ctx.rng(g);
+    let n = C::NAME;
+    let k = gen::random_scalar(&mut rng);
+    let sk = sk_from_rs::<C>(&k);
+    let foreign = sk_from_rs::<C>(&gen::random_scalar(&mut rng));
+    let pk = sk.public_key();
+    let msg = gen::message([24usize, 0, 33, 130, 1, 64][i % 6], Content::Random, &mut rng);
+    let id = gen::message([8usize, 32, 0][i % 3], Content::Random, &mut rng);
+    let mut id2 = id.clone();
+    id2.push(1);
+    type A = Option<Vec<u8>>;
+    let mut qs: Vec<Q<A>> = Vec::new();
+    for s1 in SCHEMES {
+        let Ok(ct) = pk.encrypt_time_lock(lscheme(s1), &msg, &id) else { return };
+        let mut copies: Vec<(String, bool, TimeCryptCiphertext<C>)> = Vec::new();
+        for s2 in SCHEMES {
+            let mut c = ct.clone();
+            c.scheme = lscheme(s2);
+            copies.push((format!("label-{}", s2.name()), s1 == s2, c));
+        }
+        let mut c = ct.clone();
+        c.u += <PkPt<C> as Group>::generator();
+        copies.push(("u+G".into(), false, c));
+        let mut c = ct.clone();
+        c.v[0] ^= 1;
+        copies.push(("v-bit".into(), false, c));
+        let mut sigs: Vec<(String, bool, Signature<C>)> = Vec::new();
+        for s3 in SCHEMES {
+            let Ok(s) = sk.sign(lscheme(s3), &id) else { return };
+            sigs.push((format!("signature-{}", s3.name()), s3 == s1, s));
+        }
+        let Ok(s) = sk.sign(lscheme(s1), &id2) else { return };
+        sigs.push(("signature-over-another-identifier".into(), false, s));
+        let Ok(s) = foreign.sign(lscheme(s1), &id) else { return };
+        sigs.push(("signature-by-another-key".into(), false, s));
+        let fam = format!("sealed-{}", s1.name());
+        for (cn, c_ok, c) in &copies {
+            for (sn, s_ok, sg) in &sigs {
+                let (c, sg) = (c.clone(), *sg);
+                let want: A = if *c_ok && *s_ok { Some(msg.clone()) } else { None };
+                qs.push(q(format!("{fam}/{cn}/{sn}"), want, move || ct_some(c.decrypt(&sg))));
+            }
+        }
+    }
+    let pairs = family_pairs(&qs, ctx.tier.pick(200, 800), &mut rng);
+    let d = || json!({"suite":n,"sk":hex::encode(k.to_be_bytes()),"msg":hx(&msg),"id":hx(&id),"note":"every question answers the plaintext or null"});
+    let mut cid = k.to_be_bytes().to_vec();
+    cid.extend_from_slice(&msg);
+    sandwich_pairs(ctx, "C13", &format!("{n}/history"), "copies-and-signatures", &cid, &d, &qs, &pairs);
 }
